@@ -17,11 +17,11 @@ import (
 // W is an append-only RFC 4251 writer.
 type W struct{ B []byte }
 
-func (w *W) Raw(b []byte) *W  { w.B = append(w.B, b...); return w }
-func (w *W) Byte(v byte) *W   { w.B = append(w.B, v); return w }
-func (w *W) U32(v uint32) *W  { w.B = binary.BigEndian.AppendUint32(w.B, v); return w }
-func (w *W) Str(b []byte) *W  { w.U32(uint32(len(b))); return w.Raw(b) }
-func (w *W) S(s string) *W    { return w.Str([]byte(s)) }
+func (w *W) Raw(b []byte) *W     { w.B = append(w.B, b...); return w }
+func (w *W) Byte(v byte) *W      { w.B = append(w.B, v); return w }
+func (w *W) U32(v uint32) *W     { w.B = binary.BigEndian.AppendUint32(w.B, v); return w }
+func (w *W) Str(b []byte) *W     { w.U32(uint32(len(b))); return w.Raw(b) }
+func (w *W) S(s string) *W       { return w.Str([]byte(s)) }
 func (w *W) Mpint(v *big.Int) *W { return w.Str(MpintBody(v)) }
 
 // MpintBody is the minimal two's complement big-endian body of an mpint
